@@ -170,6 +170,21 @@ def rank_fn(spec):
                     rec['mem'].append(dict(p.memory_usage()))
             elif kind == 'reset':
                 p.reset_batch()
+            elif kind == 'rollback':
+                # roll back inside the same job: save, run a discarded train-mode pass (its factor communication may still be
+                # in flight), then restore into the SAME live preconditioner (only generated for hook mode, accumulation 1)
+                sd = copy.deepcopy(p.state_dict())
+                rgen = torch.Generator().manual_seed(spec['data_seed'] * 77 + rank + ei)
+                model.zero_grad()
+                xr = gen.make_batch(rgen, B, in_shape, kh.DT[cfg['pdt']])
+                model(xr).float().pow(2).mean().backward()
+                want = copy.deepcopy(sd)
+                p.load_state_dict(sd, compute_inverses=ev[1])
+                p.reset_batch()
+                model.zero_grad()
+                got = p.state_dict()
+                ok_f = all(torch.equal(got['layers'][n][f], want['layers'][n][f]) for n in want['layers'] for f in ('A', 'G') if want['layers'][n][f] is not None)
+                rec.setdefault('loads', []).append(dict(event=ei, factors_ok=ok_f, scalars_ok=True, steps=p.steps))
             elif kind == 'load':
                 sd = copy.deepcopy(p.state_dict())
                 for m in model.modules():
